@@ -150,6 +150,12 @@ def run(ctx):
         jobs.append(Job("c13.py", "h_match", {"patterns": batch, "L": L1}, T, 30, tag=tag))
         jobs.append(Job("c13.py", "h_starts_with", {"patterns": batch, "L": L1}, T, 30, tag=tag))
         jobs.append(Job("c13.py", "h_nfa_match", {"patterns": batch, "L": LN}, T, 30, tag=tag))
+    # matching is a function of (pattern, sequence): patterns of equal shapes over different letters, one matched after the other in one process
+    A, Bb, Cc = ("atom", 0), ("atom", 1), ("atom", 2)
+    pairs = [("plus", ("alt", A, Bb)), ("plus", ("alt", Cc, A)), ("alt", A, ("seq", Bb, Cc)), ("alt", Cc, ("seq", A, Bb)), ("seq", A, ("opt", Bb)), ("seq", Cc, ("opt", A)), ("star", A), ("star", Bb)]
+    for q in range(-1, len(pairs)):
+        jobs.append(Job("c13.py", "h_match_after", {"patterns": pairs, "L": 3 if ctx.quick() else 4, "fix_q": q}, T, 30, tag=f"match after a match of pattern #{q}", meta={"twin": q == 0, "sigtag": "match:after"}))
+    ctx.bounds["match history"] = f"{len(pairs)} patterns (equal shapes over different letters) x (no | each of them matched first) x every sequence of length <= 3 (quick) / 4"
     for c0 in range(8):
         jobs.append(Job("c13.py", "h_build", {"patterns": [], "nodes": NODES, "c0": c0}, T, 30, tag=f"prefix-code first={c0} nodes<={NODES}", meta={"twin": c0 == 4}))
     ctx.run_xh(jobs)
